@@ -16,7 +16,7 @@ derived from the array's own Vec, the body is executed symbolically over polynom
 
 Placement of elements inside the buffer is not decided (DESIGN 2.1); this is the memory-safety clause of C05-C07.
 """
-import re, copy as _copy
+import os, re, copy as _copy
 from .core import Result, AnchorMissing
 from .facts import norm_ty
 from .vgraph import Poly, ZERO, ONE, Cond, Inconclusive
@@ -481,6 +481,8 @@ class Sym:
                 if getattr(s, "in_loop", None) is None:
                     P.pre_moves.append(mv)
             return [(P, Unk("elem"))]
+        if opath == "core::mem::size_of" and not t["args"]:
+            return [(P, A("SIZEOF"))]       # the element size: `if mem::size_of::<T>() == 0 { .. }` forks on it like on any value
         if re.match(r"^core::ptr::(mut_ptr|const_ptr)::<impl \*(mut|const) T>::(add|sub|offset|wrapping_add|wrapping_sub)$", opath) and isinstance(a0v, Ptr) and isinstance(args[1], Poly):
             return [(P, Ptr(a0v.off + args[1] if name in ("add", "offset", "wrapping_add") else a0v.off - args[1]))]
         if isinstance(a0v, Obj) and a0v.kind == "Vec":
@@ -505,11 +507,20 @@ class Sym:
                             def same_(x, y):
                                 if x == y:
                                     return True
+                                # .. literally one of the path's equalities (`start == len`, products of atoms included)
+                                for k_, q_, _w in P.sub.facts:
+                                    if k_ == "eq" and (x - y == q_ or y - x == q_):
+                                        return True
                                 try:      # equal after substituting the path's equalities (`iter.len() == self.num_rows`)
                                     return P.sub.sign(x - y)[0] == "nonneg" and P.sub.sign(y - x)[0] == "nonneg"
                                 except Exception:
                                     return False
                             reaches = any(same_(dst + cnt, args[1]) for (src, dst, cnt) in P.pre_moves) or any(same_(w, P.L0) for w in P.writes0)      # .. or the new cells are written right behind the old end (append, then rotate)
+                            # zero-sized elements occupy no memory: on a path that has established `size_of::<T>() == 0` there is
+                            # nothing to carry anywhere
+                            reaches = reaches or same_(A("SIZEOF"), ZERO)
+                            if os.environ.get("VERIF_DEBUG_TAIL") and not reaches:
+                                print("TAILDBG pre_moves", P.pre_moves, "writes0", P.writes0, "L0", P.L0, "new", args[1], "facts", [(k_, repr(g_), w_) for k_, g_, w_ in P.sub.facts][-8:])
                             P.acc.append(("TAIL", "a block move carries the old tail to the end of the grown buffer (new length %r)" % (args[1],), ONE if reaches else -ONE, t["span"]))
                     P.vlen = args[1]
                 return [(P, Tup([]))]
@@ -541,6 +552,9 @@ class Sym:
         if name in ("forget", "drop", "for_each"): return [(P, Tup([]))]
         cb = s.f.crate_fn_for_call(fn)
         if cb is not None and cb.kind == "Closure":
+            if any(fn2 and fn2["path"] in RAW for _, _, fn2 in cb.calls()):
+                # block moves made through a local closure are not followed: nothing can be said about this function's raw accesses
+                raise Inconclusive("raw moves inside the closure %s" % cb.ident)
             return [(P, Unk("closure-result"))]
         return [(P, Unk("call:" + name))]
 
